@@ -24,6 +24,11 @@ pub struct Case {
     /// tracker itself)
     #[serde(default)]
     pub wire_blocks: bool,
+    /// the node persists through KVVPersister<RedbKVVStore> (the store vlsd uses by default); after
+    /// every request one twin is restored from a byte copy of the database directory opened afresh
+    /// and a second one from the entries the store lists, put into a memory store
+    #[serde(default)]
+    pub redb: bool,
 }
 
 pub struct C11;
@@ -45,13 +50,13 @@ impl Prop for C11 {
          alone (get_nodes -> Node::restore_node) and compared with the running signer: per channel ids, setup and the whole \
          EnforcementState (counters, commitment contents, points, secrets, closed flag), the persisted tracker entry (tip, height, header \
          window, every monitor state and watch set), allowlist, approved invoices, channel-id high-water mark. Non-trivial: steps whose \
-         request changed at least one compared field; distinct by (request kind, changed components, abstract counters of the two channels before the request, store kind)."
+         request changed at least one compared field; distinct by (request kind, changed components, abstract counters of the two channels before the request, store kind).  A fifth of the histories run on the redb store."
             .into()
     }
     fn assumptions(&self) -> Vec<String> {
         vec![
             "payments map, excess amount, issued invoices and velocity controls are not in the property's list and are not compared here (velocity: C12)".into(),
-            "restore uses the in-memory KVV store; redb reopen is covered by C16".into(),
+            "a fifth of the histories run the signer on KVVPersister<RedbKVVStore> (database on tmpfs): after every request one twin is restored from a byte copy of the database directory opened afresh, a second from the listed entries put into a memory store; the other histories use the in-memory KVV store".into(),
             "wire blocks (half of the plain-memory-store histories): the signer is built by HandlerBuilder + HsmdInit and AddBlock (valid or orphan) / RemoveBlock (valid) requests are protocol messages to its root handler, which persists the tracker itself; block requests the handler would answer with a panic stay at the tracker API with the handler's persist step".into(),
         ]
     }
@@ -63,12 +68,21 @@ impl Prop for C11 {
     }
     fn strategy(&self, tier: Tier) -> BoxedStrategy<Case> {
         let n = tier.pick(30usize, 80usize);
-        (prop::bool::weighted(0.3), any::<bool>(), proptest::collection::vec(op_strat(false), 1..n), prop::bool::weighted(0.25), prop::bool::weighted(0.5))
-            .prop_map(|(cloud, anchors, ops, backup, wire)| Case { cloud: cloud && !backup, anchors, ops, backup, wire_blocks: wire && !cloud && !backup })
+        (prop::bool::weighted(0.3), any::<bool>(), proptest::collection::vec(op_strat(false), 1..n), prop::bool::weighted(0.25), prop::bool::weighted(0.5), prop::bool::weighted(0.2))
+            .prop_map(|(cloud, anchors, ops, backup, wire, redb)| {
+                if redb {
+                    Case { cloud: false, anchors, ops, backup: false, wire_blocks: false, redb: true }
+                } else {
+                    Case { cloud: cloud && !backup, anchors, ops, backup, wire_blocks: wire && !cloud && !backup, redb: false }
+                }
+            })
             .boxed()
     }
     fn run(&self, case: &Case, st: &mut CaseStats, ctx: &Ctx) -> Result<(), Violation> {
-        let mut m = Machine::new_mode_wire(case.cloud, case.backup, case.anchors, case.wire_blocks);
+        let mut m = Machine::new_mode_store(case.cloud, case.backup, case.anchors, case.wire_blocks, case.redb);
+        if case.redb {
+            st.class("redb_store_history");
+        }
         if m.pw.is_some() {
             st.class("wire_blocks_history");
         }
@@ -152,6 +166,44 @@ impl Prop for C11 {
                 m.dead = true;
                 break;
             }
+            if case.redb {
+                let twin_r = match m.w.restore_twin_redb() {
+                    Out::Ok((node2, _home)) => observe(&node2),
+                    o => {
+                        ctx.report(st, Violation::new(
+                            format!("C11:restore-from-redb-failed:{}", r.kind),
+                            format!("step {} {:?}: a signer could not be restored from a copy of the redb database: {}", i, op, o.err_msg()),
+                        ))?;
+                        m.dead = true;
+                        break;
+                    }
+                };
+                let mut diffs: Vec<String> = vec![];
+                for (k, v) in live.channels.iter() {
+                    match twin_r.channels.get(k) {
+                        Some(v2) => diff_values("channel", v, v2, &mut diffs),
+                        None => diffs.push("channel(missing-in-twin)".into()),
+                    }
+                }
+                for k in twin_r.channels.keys() {
+                    if !live.channels.contains_key(k) {
+                        diffs.push("channel(only-in-twin)".into());
+                    }
+                }
+                diff_values("tracker", &live.tracker, &twin_r.tracker, &mut diffs);
+                for key in ["allowlist", "invoices", "dbid_high_water_mark"] {
+                    diff_values(&format!("node.{}", key), &live.node[key], &twin_r.node[key], &mut diffs);
+                }
+                if let Some(d) = diffs.first() {
+                    ctx.report(st, Violation::new(
+                        format!("C11:not-durable-in-redb:{}:{}", r.kind, strip_ids(d)),
+                        format!("step {} {:?} ({}): a signer restored from a copy of the redb database differs from the running signer in {:?}", i, op, r.tag, diffs),
+                    ))?;
+                    st.class("history_truncated_after_known_finding");
+                    m.dead = true;
+                    break;
+                }
+            }
             if case.backup {
                 let twin_b = match m.w.restore_twin_from_backup() {
                     Out::Ok(node2) => observe(&node2),
@@ -206,12 +258,12 @@ impl Prop for C11 {
                 st.class("step_changed_compared_state");
                 let comps: Vec<String> = changed.iter().map(|c| strip_ids(c)).collect();
                 let _ = c;
-                st.nontrivial_shape((r.kind, comps, counters.clone(), case.cloud));
+                st.nontrivial_shape((r.kind, comps, counters.clone(), case.cloud, case.redb));
             }
             prev = live;
         }
-        st.class(if case.cloud { "cloud_store_history" } else { "memory_store_history" });
-        st.sample = Some(json!({"cloud": case.cloud, "anchors": case.anchors, "trace": trace}));
+        st.class(if case.redb { "redb_store_history_done" } else if case.cloud { "cloud_store_history" } else { "memory_store_history" });
+        st.sample = Some(json!({"redb": case.redb, "cloud": case.cloud, "anchors": case.anchors, "trace": trace}));
         Ok(())
     }
 }
